@@ -21,6 +21,17 @@ def oracle(toks, line):
         return line == "ok " + want_rep(toks[1], int(toks[2]), int(toks[3]))
     if toks[0] == "repblk":
         return " oracle_bad=0" in line
+    if toks[0] == "malf":
+        # allocation with an untrusted allocator behind a backend that does not clamp: null, or first AND last element inside
+        sb, ty, v, n = int(toks[1]), toks[2], int(toks[3]) % (1 << 32), int(toks[4]) % (1 << 32)
+        size = {"char": 1, "int": 4, "llong": 8, "st": 24}[ty]
+        if n == 0:
+            return line == "abort"
+        if v == 0:
+            return line == "ok null"
+        if v < BLK and v + (n - 1) * size < BLK:
+            return line == f"ok in{sb}:{v}"
+        return line == "abort"
     if toks[0] == "chain":
         if line in ("abort", "segv"):
             return True          # an operation that would produce anything else aborts (a fault on a null dereference is not a pointer)
@@ -150,6 +161,14 @@ def run(chk):
     nchains = 30000 if thorough else 5000
     for i in range(nchains):
         ops.append(gen_chain(rng, i % 2, rng.randrange(1, 13 if thorough else 7)))
+    # allocation: the allocator inside the sandbox returns anything (inside, straddling the end, wholly outside, far outside)
+    for sb in (0, 1):
+        for ty, size in (("char", 1), ("int", 4), ("llong", 8), ("st", 24)):
+            vs = {0, 1, 16, 0x8000, BLK - size, BLK - size + 1, BLK - 1, BLK, BLK + 1, BLK + 64, 0x10040, 2 * BLK, 2 * BLK - 1, (1 << 32) - 1, (1 << 32) - BLK, 1 << 31}
+            vs |= {rng.randrange(0, 4 * BLK) for _ in range(40 if thorough else 8)} | {rng.getrandbits(32) for _ in range(20 if thorough else 4)}
+            for v in sorted(vs):
+                for n in (1, 2, 3, 16, BLK // size, BLK // size + 1, 0) + ((rng.randrange(1, 70000),) if thorough else ()):
+                    ops.append(f"malf {sb} {ty} {v} {n}")
     # regression corpus: the witnesses of the findings run first on every seed
     corpus = ["chain 0 null i [5", "chain 0 65532 c cst afp", "chain 0 null st afl", "chain 1 null pp [3 ld", "chain 0 65520 i ae4", "chain 0 65520 i ae3 +1", "chain 1 16 c ae5"]
     ops = corpus + list(dict.fromkeys(ops))
